@@ -3,21 +3,19 @@
   lists of *reasons* a case lies outside it (see Spec/Pipeline.lean for the oracle).  Each reason
   is a named exclusion class:
 
-    known findings (the unchanged code departs from MongoDB's definition; witnesses in
+    known findings (the code departs from MongoDB's definition; witnesses in
     known_findings.json, replayed on every run)
-      groupnullempty `$group` with a constant `_id` over no documents returns one group
-      groupfalsyid   `$group` with a falsy constant `_id` (0, "", false) reports `_id: null`
       groupboolnum   group keys mixing booleans and numbers (`true == 1` in Python): merged when
                      the sort happens to leave them adjacent
       groupdockey    document-valued group keys equal up to field order are merged
-      addtosetfalsy  `$addToSet` turns falsy values (0, "", false, [], {}) into null
-      firstmissing   `$first` / `$last` skip the documents in which the expression is missing
-      minmaxtypes    `$min` / `$max` over values of several types raise TypeError (MongoDB orders
-                     them by BSON type)
-      sumbool        `$sum` / `$avg` count booleans as 0 / 1 (MongoDB ignores non-numbers)
+      addtosetboolnum  `$addToSet` merges `true` with `1`, `false` with `0` (Python `==`)
       lookupboolnum  `$lookup` joins `true` to `1` (Python `==`)
       limitdouble    `$limit: 2.0` / `$skip: 1.0` (a double without fraction) are rejected;
                      MongoDB takes them as the integer
+    repaired in the library since (classes deleted, theorems strengthened; the witnesses stay
+    regression cases of the check): countempty, groupnullempty, groupfalsyid, addtosetfalsy,
+    firstmissing, minmaxtypes, sumbool, unwindindex, unwindindexparent, multiopstage, neglimit,
+    projectidexcl, accmissing, addfieldsorder
     scope limits (nothing is claimed; the model may still be compared with the code)
       nospec         the stage has no oracle in Spec/Pipeline.lean
       filterdomain / sortdomain / projdomain   the parameter is outside the domain of the
